@@ -1657,7 +1657,7 @@ func (self *ReplicationAckDB) Close() error {
 
 func (self *ReplicationAckDB) ProcessLeaderPushLock(glockIndex uint16, aofLock *AofLock) error {
 	lock := aofLock.lock
-	if lock == nil {
+	if lock == nil || lock.command == nil {
 		return nil
 	}
 	self.ackGlocks[glockIndex].Lock()
